@@ -241,3 +241,14 @@ pub use receiver::{
     EqualizerBuilder, LinkState, SameEventType, SameReceiver, SameReceiverBuilder,
     SameReceiverEvent, TransportState,
 };
+
+/// Verification hooks: re-exports of crate-private items and observation taps.
+/// Not part of the API; compiled only with the `verif-hooks` feature.
+#[cfg(feature = "verif-hooks")]
+#[doc(hidden)]
+#[allow(missing_docs)]
+pub mod verif {
+    pub use crate::eventcodes::verif_hooks as eventcodes;
+    pub use crate::message::verif_hooks as message;
+    pub use crate::receiver::verif::*;
+}
